@@ -253,6 +253,74 @@ def run(ctx):
     from . import c09 as _c09, c05 as _c05
     _c09._mutable_defaults(_c05._Sub(ctx, 'R20h'), repo)
 
+    # ---- R20i: line and column are those of the error's own position
+    ctx.rule('R20i', 'a method of the error classes that sets self.lineno / self.colno from pos_to_lineno_colno(P) sets self.pos '
+                     'to that same P on the same path: an error that already has a position never takes the line and column of '
+                     'another place (a node attached as context)', 1)
+    n_ln = 0
+    for q_, f_ in sorted(exm_.functions.items()):
+        if '.' not in q_ or q_.endswith('.__init__'):
+            continue
+        if not any(isinstance(t_, ast.Attribute) and isinstance(t_.ctx, ast.Store) and t_.attr in ('lineno', 'colno')
+                   and isinstance(t_.value, ast.Name) and t_.value.id == 'self' for t_ in ast.walk(f_)):
+            continue
+        try:
+            lcs = symex.Walker(want_exits=True, track_attrs=('self.pos', 'self.lineno', 'self.colno')).run_block(f_.body)
+        except symex.TooManyPaths as e:
+            ctx.unknown('R20i', exm_, f_, str(e), construct='%s: line/column source' % q_)
+            continue
+        badl = None
+        for cs in lcs:
+            for fld in ('self.lineno', 'self.colno'):
+                v_ = cs.env.get(fld)
+                if v_ is None or (isinstance(v_, ast.Constant) and v_.value is None):
+                    continue
+                it = symex.item_def(unparse(v_), cs.env)
+                call_ = it[3] if it else (v_ if isinstance(v_, ast.Call) else None)
+                if not (isinstance(call_, ast.Call) and call_name(call_) == 'pos_to_lineno_colno' and call_.args):
+                    continue
+                n_ln += 1
+                P = unparse(symex.expand(call_.args[0], cs.env))
+                sp = cs.env.get('self.pos')
+                same = sp is not None and unparse(symex.expand(sp, cs.env)) == P
+                if not same and badl is None:
+                    badl = (cs, fld, P)
+        ctx.decide('R20i', badl is None, exm_, f_, '%s: line/column set together with the position they belong to' % q_,
+                   '%s sets %s from pos_to_lineno_colno(%s) on the path [%s], on which self.pos is not set to that position (it '
+                   'keeps the position the error already had): the message then shows the line and column of another place '
+                   'than the error\'s own position' % (q_, badl[1] if badl else '', badl[2] if badl else '',
+                                                      ' & '.join(badl[0].cond_src())[-140:] if badl else ''),
+                   construct='%s: line/column source' % q_)
+    if not n_ln:
+        ctx.unknown('R20i', exm_, None, 'no method sets line/column from a position', construct='line/column source')
+
+    # ---- R20j: an explicit line/column belongs to the position it is passed with
+    ctx.rule('R20j', 'wherever an error is constructed with explicit lineno= / colno=, they are those of the pos= passed in the same '
+                     'call: copied from the same error object, or computed by pos_to_lineno_colno() from the value that pos= has '
+                     'at that point (not from an earlier value of a variable that has moved on since); exercised on a built-in '
+                     'example on every run', 0)
+    from ..core import set_parents as _sp
+    ex_ = ast.parse('def f(w, pos):\n loc = w.pos_to_lineno_colno(pos, as_dict=True)\n pos = pos + 3\n'
+                    ' raise E(pos=pos, lineno=loc["lineno"], colno=loc["colno"])\n')
+    _sp(ex_)
+    if [ok_ for ok_, _w, _n in explicit_location_sites(ex_.body[0])] != [False, False]:
+        raise AnalysisError('R20j: the rule no longer fires on its built-in example')
+    n_el = 0
+    for mod_ in sorted(repo.modules.values(), key=lambda m_: m_.name):
+        if mod_.name.endswith('__main__'):
+            continue
+        for q_, f_ in sorted(mod_.functions.items()):
+            if not any(isinstance(k_, ast.keyword) and k_.arg in ('lineno', 'colno') for k_ in ast.walk(f_)):
+                continue
+            for ok_, why_, node_ in explicit_location_sites(f_):
+                n_el += 1
+                ctx.decide('R20j', ok_, mod_, node_, '%s: %s' % (q_, why_),
+                           '%s builds an error whose line/column do not belong to its position: %s -- the enclosing parse '
+                           'context does not recompute a location that is already set, so the report points at another place '
+                           'than the error' % (q_, why_), construct='%s: explicit location %s' % (q_, short(node_, 40)))
+    ctx.holds('R20j', exm_, None, '%d construction(s) with explicit line/column' % n_el, construct='explicit location scan',
+              trivial=True)
+
     return 'other', _expl()
 
 
@@ -572,3 +640,45 @@ def _targets(s):
             if isinstance(n, ast.Name):
                 out.add(n.id)
     return out
+
+
+def explicit_location_sites(f):
+    """(ok, reason, call) for every call in `f` with a lineno= / colno= keyword, per path"""
+    try:
+        cases = symex.Walker(is_sink=lambda c_: any(k_.arg in ('lineno', 'colno') for k_ in c_.keywords)).run(f)
+    except symex.TooManyPaths:
+        return
+    seen = set()
+    for cs in cases:
+        c = cs.sub
+        posk = kwarg(c, 'pos')
+        for nm in ('lineno', 'colno'):
+            v = kwarg(c, nm)
+            if v is None or (isinstance(v, ast.Constant) and v.value is None):
+                continue
+            ok, why = False, None
+            if posk is None:
+                why = '%s= is given without pos=' % nm
+            elif isinstance(v, ast.Attribute) and v.attr == nm and isinstance(posk, ast.Attribute) and posk.attr == 'pos' \
+                    and unparse(v.value) == unparse(posk.value):
+                ok, why = True, '%s and pos copied from the same object %s' % (nm, unparse(v.value))
+            else:
+                full = symex.expand(v, cs.env)
+                calls = [x for x in ast.walk(full) if isinstance(x, ast.Call) and call_name(x) == 'pos_to_lineno_colno' and x.args]
+                if not calls:
+                    it = symex.item_def(unparse(v), cs.env)
+                    if it and isinstance(it[3], ast.Call) and call_name(it[3]) == 'pos_to_lineno_colno' and it[3].args:
+                        calls = [it[3]]
+                if not calls:
+                    why = '%s=%s is not computed from a position' % (nm, short(v, 40))
+                else:
+                    P = unparse(symex.expand(calls[0].args[0], cs.env))
+                    Q = unparse(symex.expand(posk, cs.env))
+                    ok = P == Q
+                    why = ('%s computed from the value of pos= (%s)' % (nm, Q)) if ok else (
+                        '%s= is the %s of position %s, but pos= is %s at this point' % (nm, nm, P[:60], Q[:60]))
+            key = (id(cs.node), nm, ok)
+            if key in seen:
+                continue
+            seen.add(key)
+            yield ok, why, cs.node
